@@ -12,7 +12,12 @@ EXPLANATION = ("A1 start(): on the path where one of the caller's controls has t
                "handle (timeout, options copied) whose controls are - element by element, whatever pushes, pops, truncations, retains the "
                "code applies to the vector, on an owned copy or through a `&mut` into the saved handle - every saved control followed by one "
                "PagedResults{size: self.page_size, cookie: the parsed cookie}, and splices the new stream's handle and receiver into the "
-               "running stream; a failed follow-up is returned as the error; on every path next() leaves the fields a follow-up is built "
+               "running stream; a failed follow-up is returned as the error; all of this for ANY page boundary crossed in one call of next() - the "
+               "page loop is judged as one generic iteration from every state its back edge hands to the loop head (what the locals bound "
+               "before the loop hold there, read off the paths: the entry value, what one trip makes of it, an unknown for the rest), so a "
+               "vector / flag built before the loop and changed inside it is seen with what the previous boundary left in it; a path that "
+               "gives up at the expect() of a saved value it found absent (nothing saved: start() has not run) issues nothing and is the "
+               "same alternative the other paths note at that expect(); on every path next() leaves the fields a follow-up is built "
                "from (saved handle with its controls / timeout / options, base, scope, filter, attrs, page size) as it found them, so page "
                "n+1 is asked for like page 2; the saved controls hold no paging control (start() saves them filtered, only start() and "
                "next() can write the saved handle), which makes a path of next() that finds one infeasible; A3 codec: C19. Not decided: "
@@ -370,7 +375,8 @@ def run(ctx):
             held = '; '.join('`%s` (bound before the page loop) arrives at the loop head holding %s' % (lname(e), absx.fmt(e[2])[:110]) for e in later)
             why = (' - at a page boundary that is not the first one crossed in this call of next() (an empty page that carries a cookie): %s; ' % held) + \
                   ('the control vector carries the paging control of the previous page boundary over, the request goes out with %d paging controls' % n_paging if n_paging > 1 else
-                   'what the earlier page boundaries left in it goes out with the request')
+                   'the request goes out without the paging control' if n_paging == 0 and all(x[0] != 'opaque' for x in segs) else
+                   'what the earlier page boundaries left there goes out with the request')
         used = [s[2], c2] + [h.get(('field', H2, fld), ('unk',)) for fld in ('timeout', 'search_opts')]
         request_fields.update(x[2] for x in absx.leaves(tuple(used), lambda x: x[0] == 'field' and x[1] == SELF))
         seen.add(which)
